@@ -800,6 +800,7 @@ impl<const M: usize> Sim<M> {
         }
         rep.bump("c12.deallocate");
         self.after_op(rep, OpKind::Dealloc, &ev);
+        self.check_live_blocks_still_reserved(rep, "deallocate");
         self.tr(&[21]);
     }
 
@@ -915,6 +916,7 @@ impl<const M: usize> Sim<M> {
             }
         };
         self.after_op(rep, if grow { OpKind::Grow } else { OpKind::Shrink }, &ev);
+        self.check_live_blocks_still_reserved(rep, name);
         self.tr(&[22, out as u64]);
         out
     }
@@ -1201,5 +1203,32 @@ impl<const M: usize> Sim<M> {
             rep.violate("C09", format!("C09/failure-consumed-capacity/{}", what), format!("capacity {} -> {} ({})", before.cap, now.cap, self.cur));
         }
         rep.bump("c09.failure_state_checks");
+    }
+
+    /// C12: an Allocator call on one block never gives away memory of the other live blocks: every
+    /// live block of the current chunk must still lie at or above the bump finger.
+    pub fn check_live_blocks_still_reserved(&mut self, rep: &mut Report, what: &str) {
+        if self.poisoned {
+            return;
+        }
+        let (finger, footer) = match self.last_obs.as_ref().and_then(|o| o.chunks.first().copied()) {
+            Some((f, l)) => (f, f + l),
+            None => return,
+        };
+        let base = match self.chunks.last() {
+            Some(c) => c.base,
+            None => return,
+        };
+        for (addr, lv) in self.live.range(base..footer) {
+            if *addr < finger {
+                rep.violate(
+                    "C12",
+                    format!("C12/{}/released-memory-of-another-live-block", what),
+                    format!("after {} the bump finger is at {:#x} but live block id {} [{:#x},{:#x}) lies below it ({})", what, finger, lv.id, addr, addr + lv.size, self.cur),
+                );
+                break;
+            }
+        }
+        rep.bump("c12.other_blocks_still_reserved_checks");
     }
 }
